@@ -9,6 +9,17 @@
 //!               violation with the input saved; panic => violation; error span outside 0..=len =>
 //!               violation; two parses of one text differing => violation; child timeout =>
 //!               inconclusive (violation only if the single input still hangs with a 60 s budget).
+//!               Nesting is homogeneous (19 kinds, one child per depth), COMPOSITE (every one of 31
+//!               constructs - subqueries in EXISTS / IN / FROM / HAVING / ORDER BY, CASE arms, CAST,
+//!               calls, IN lists, BETWEEN bounds, tuples, arrays - holding runs of 1..64 cheap levels
+//!               `!` `~` `-` NOT `(` `[` `f(`, repeated as often as fits in 4 KiB, ascending ladders, one
+//!               child per construct x filler) and random mixtures of all level kinds.
+//!  history    : a text means the same whatever the thread lexed / parsed before. Sessions of related
+//!               texts (the same statements and expressions with words re-spelled in other letter case,
+//!               with suffixes, other blanks; hostile inputs and nesting at the limit in between) run
+//!               through tokenize / parse_expr / parse / parse_all on ONE new thread; each result must
+//!               equal the result of that text alone on a thread that never ran the parser, and every
+//!               identifier token must be spelled exactly as the source text at its span.
 //!  precedence : expression trees over all binary/unary operators (exhaustive for <= 3 operators,
 //!               random to depth 8, plus postfix/call/case/array forms) are printed with minimal
 //!               parentheses according to the DOCUMENTED table (expr.rs:7-18, book
@@ -1328,6 +1339,182 @@ fn fuzz_input(batch_seed: u64, idx: u64) -> (&'static str, String) {
 }
 
 // ------------------------------------------------------------------------------------------------
+// composite nesting: levels of SEVERAL kinds in one text. A nesting limit has to hold across
+// construct boundaries (a subquery, a CASE arm, a call's arguments, an IN list ... inside which the
+// nesting goes on), so the texts below put runs of cheap levels (1-2 bytes each) inside every kind
+// of construct, as many as fit in MAX_INPUT bytes.
+// ------------------------------------------------------------------------------------------------
+
+/// (name, open, close) of one nesting level. The first N_FILLERS kinds cost 1-4 bytes per level.
+const LEVEL_KINDS: &[(&str, &str, &str)] = &[
+    ("bang", "!", ""),
+    ("bitnot", "~", ""),
+    ("neg", "- ", ""),
+    ("not", "NOT ", ""),
+    ("paren", "(", ")"),
+    ("array", "[", "]"),
+    ("open-paren", "(", ""),
+    ("open-bracket", "[", ""),
+    ("call", "f(", ")"),
+    // constructs that open a new syntactic scope
+    ("agg", "COUNT(", ")"),
+    ("case-when", "CASE WHEN ", " THEN 1 END"),
+    ("case-then", "CASE WHEN 1 THEN ", " END"),
+    ("case-else", "CASE WHEN 1 THEN 1 ELSE ", " END"),
+    ("case-operand", "CASE ", " WHEN 1 THEN 1 END"),
+    ("cast", "CAST(", " AS INT)"),
+    ("inlist", "1 IN(", ")"),
+    ("inlist-lhs", "(", ") IN (1)"),
+    ("between", "1 BETWEEN ", " AND 2"),
+    ("between-high", "1 BETWEEN 0 AND ", ""),
+    ("like", "a LIKE ", ""),
+    ("tuple", "(1,", ")"),
+    ("array-tail", "[1,", "]"),
+    ("exists", "EXISTS(SELECT ", ")"),
+    ("exists-where", "EXISTS(SELECT 1 FROM t WHERE ", ")"),
+    ("insub", "a IN(SELECT ", ")"),
+    ("insub-where", "a IN (SELECT a FROM t WHERE ", ")"),
+    ("not-insub", "a NOT IN(SELECT ", ")"),
+    ("scalar-sub", "(SELECT ", ")"),
+    ("exists-from", "EXISTS(SELECT 1 FROM(SELECT ", "))"),
+    ("exists-having", "EXISTS(SELECT 1 FROM t GROUP BY a HAVING ", ")"),
+    ("exists-order", "EXISTS(SELECT 1 FROM t ORDER BY ", ")"),
+];
+const N_FILLERS: usize = 9;
+/// filler levels per construct (62/63/64 straddle the documented limit of 64 inside one construct)
+const COMPOSITE_KS: [usize; 7] = [1, 3, 15, 31, 62, 63, 64];
+
+fn composite_pairs() -> usize {
+    LEVEL_KINDS.len() * N_FILLERS
+}
+
+fn composite_name(pair: usize) -> String {
+    format!("{}-over-{}", LEVEL_KINDS[(pair / N_FILLERS) % LEVEL_KINDS.len()].0, LEVEL_KINDS[pair % N_FILLERS].0)
+}
+
+/// `m` constructs of kind pair/N_FILLERS, each followed by `k` filler levels: (bare expression, statement)
+fn composite_text(pair: usize, ctx: usize, k: usize, m: usize) -> (String, String) {
+    let (_, bo, bc) = LEVEL_KINDS[(pair / N_FILLERS) % LEVEL_KINDS.len()];
+    let (_, fo, fc) = LEVEL_KINDS[pair % N_FILLERS];
+    let mut s = String::new();
+    for _ in 0..m {
+        s.push_str(bo);
+        for _ in 0..k {
+            s.push_str(fo);
+        }
+    }
+    s.push('1');
+    for _ in 0..m {
+        for _ in 0..k {
+            s.push_str(fc);
+        }
+        s.push_str(bc);
+    }
+    let stmt = NEST_CTXS[ctx % NEST_CTXS.len()].replacen("{}", &s, 1);
+    (s, stmt)
+}
+
+/// (k, m) points of one pair, ascending by the number of levels m * (k + 1), the last ones filling MAX_INPUT
+fn composite_ladder(pair: usize, ctx: usize) -> Vec<(usize, usize)> {
+    let (_, bo, bc) = LEVEL_KINDS[(pair / N_FILLERS) % LEVEL_KINDS.len()];
+    let (_, fo, fc) = LEVEL_KINDS[pair % N_FILLERS];
+    let room = MAX_INPUT.saturating_sub(NEST_CTXS[ctx % NEST_CTXS.len()].len());
+    let mut v: Vec<(usize, usize)> = Vec::new();
+    for &k in &COMPOSITE_KS {
+        let per = bo.len() + bc.len() + k * (fo.len() + fc.len());
+        let mmax = room / per.max(1);
+        for m in [2usize, 4, 16, 64, mmax] {
+            if m >= 2 && m <= mmax {
+                v.push((k, m));
+            }
+        }
+    }
+    v.sort_by_key(|&(k, m)| (m * (k + 1), k));
+    v.dedup();
+    v
+}
+
+/// random mixtures: periodic patterns of 1-4 (kind, run length) segments or independent random segments
+fn nestmix_text(seed: u64) -> (String, String, usize) {
+    let mut r = Rng::new(seed ^ 0x4E57_4D1C);
+    let ctx = r.below(NEST_CTXS.len());
+    let room = MAX_INPUT.saturating_sub(NEST_CTXS[ctx].len());
+    let target = if r.chance(1, 4) { 100 + r.below(900) } else { room };
+    const RUNS: [usize; 10] = [1, 1, 2, 5, 20, 40, 61, 62, 63, 64];
+    let periodic = r.chance(2, 3);
+    let np_ = 1 + r.below(4);
+    let pattern: Vec<(usize, usize)> = (0..np_)
+        .map(|_| {
+            let kind = if r.bool() { r.below(N_FILLERS) } else { r.below(LEVEL_KINDS.len()) };
+            (kind, *r.pick(&RUNS))
+        })
+        .collect();
+    let mut open = String::new();
+    let mut close: Vec<&'static str> = Vec::new();
+    let mut bytes = 1usize;
+    let mut levels = 0usize;
+    let mut i = 0usize;
+    'outer: loop {
+        let (kind, run) = if periodic { pattern[i % pattern.len()] } else { (r.below(LEVEL_KINDS.len()), *r.pick(&RUNS)) };
+        i += 1;
+        let (_, o, c) = LEVEL_KINDS[kind];
+        for _ in 0..run {
+            if bytes + o.len() + c.len() > target {
+                break 'outer;
+            }
+            open.push_str(o);
+            close.push(c);
+            bytes += o.len() + c.len();
+            levels += 1;
+        }
+        if i > 5000 {
+            break;
+        }
+    }
+    let mut s = open;
+    s.push('1');
+    // sometimes leave the tail open (the recursion has happened by then)
+    let keep = if r.chance(1, 5) { r.below(close.len() + 1) } else { close.len() };
+    for c in close.iter().rev().take(keep) {
+        s.push_str(c);
+    }
+    let stmt = NEST_CTXS[ctx].replacen("{}", &s, 1);
+    (s, stmt, levels)
+}
+
+/// one generated hostile input of generator `gen` ("fuzz", "composite", "nestmix")
+struct GenInput {
+    class: &'static str,
+    /// last component of a crash signature
+    hint: String,
+    text: String,
+    /// text for the bare-expression parser when it differs from `text`
+    expr: Option<String>,
+    levels: usize,
+}
+
+/// deterministic function of (gen, batch_seed, idx). "composite": batch_seed = pair * 100 + ctx, idx = ladder position
+fn gen_input(gen: &str, batch_seed: u64, idx: u64) -> GenInput {
+    match gen {
+        "composite" => {
+            let (pair, ctx) = ((batch_seed / 100) as usize % composite_pairs(), (batch_seed % 100) as usize);
+            let ladder = composite_ladder(pair, ctx);
+            let (k, m) = ladder.get(idx as usize).copied().unwrap_or((1, 2));
+            let (e, stmt) = composite_text(pair, ctx, k, m);
+            GenInput { class: "nest-composite", hint: format!("nested-{}", composite_name(pair)), text: clip(stmt), expr: Some(clip(e)), levels: m * (k + 1) }
+        }
+        "nestmix" => {
+            let (e, stmt, levels) = nestmix_text(case_seed(batch_seed, idx));
+            GenInput { class: "nest-mix", hint: "nested-mix".to_string(), text: clip(stmt), expr: Some(clip(e)), levels }
+        }
+        _ => {
+            let (class, text) = fuzz_input(batch_seed, idx);
+            GenInput { class, hint: format!("fuzz-{}", class), text, expr: None, levels: 0 }
+        }
+    }
+}
+
+// ------------------------------------------------------------------------------------------------
 // child process: worker thread (2 MiB stack) runs the entry points, judge thread evaluates
 // ------------------------------------------------------------------------------------------------
 
@@ -1648,11 +1835,17 @@ fn child_judge(args: &Args) {
             let count = args.extra_u64("count", 0);
             // replay: the whole prefix is executed (router state), only `only` is judged
             let only = args.extra.get("only").and_then(|x| x.parse::<u64>().ok());
+            let gen = args.extra.get("gen").cloned().unwrap_or_else(|| "fuzz".to_string());
             for i in from..from + count {
-                let (class, s) = fuzz_input(batch_seed, i);
-                let replay = json!({"part": "fuzz", "batch_seed": batch_seed, "from": from, "index": i, "class": class, "text": s});
+                let gi = gen_input(&gen, batch_seed, i);
+                let (class, s) = (gi.class, gi.text);
+                let replay = json!({"part": "fuzz", "gen": gen, "batch_seed": batch_seed, "from": from, "index": i, "class": class, "text": s});
                 let before = j.report.violations_total;
-                j.input(i, class, &s, None, only.map_or(true, |o| o == i), &replay);
+                j.input(i, class, &s, gi.expr.as_deref(), only.map_or(true, |o| o == i), &replay);
+                if gi.levels > 0 {
+                    j.report.count(&format!("nest_levels_survived[{}]", class), gi.levels as u64);
+                    j.report.count_max(&format!("max:nest_levels_survived[{}]", class), gi.levels as u64);
+                }
                 if j.report.want_sample() && i % 997 == 3 {
                     j.report.sample(json!({"part": "fuzz", "class": class, "input": trunc(&s, 160)}));
                 }
@@ -1785,11 +1978,17 @@ fn crash_kind(sig: i32, stderr: &str) -> &'static str {
 
 /// run one fuzz batch to completion, restarting the child after every crash
 fn fuzz_batch(dir: &Path, tag: &str, batch_seed: u64, from0: u64, count: u64, only: Option<u64>, rep: &mut Report) {
+    gen_batch(dir, tag, "fuzz", false, batch_seed, from0, count, only, rep);
+}
+
+/// the same for any generator of `gen_input`; `stop_at_crash`: the inputs of the batch ascend in depth,
+/// so the ones behind a crash would only repeat it
+fn gen_batch(dir: &Path, tag: &str, gen: &str, stop_at_crash: bool, batch_seed: u64, from0: u64, count: u64, only: Option<u64>, rep: &mut Report) -> bool {
     let end = from0 + count;
     let mut from = from0;
     let mut restarts = 0;
     while from < end && restarts < 50 {
-        let mut a = vec![("mode", "fuzz".to_string()), ("batch-seed", batch_seed.to_string()), ("from", from.to_string()), ("count", (end - from).to_string())];
+        let mut a = vec![("mode", "fuzz".to_string()), ("gen", gen.to_string()), ("batch-seed", batch_seed.to_string()), ("from", from.to_string()), ("count", (end - from).to_string())];
         if let Some(o) = only {
             a.push(("only", o.to_string()));
         }
@@ -1799,14 +1998,15 @@ fn fuzz_batch(dir: &Path, tag: &str, batch_seed: u64, from0: u64, count: u64, on
             rep.merge(r);
         }
         match run.ended {
-            Ended::Clean => return,
+            Ended::Clean => return true,
             Ended::Signal { sig, stderr, idx, entry } => {
                 restarts += 1;
                 if idx == u64::MAX || idx < from || idx >= end {
                     rep.inconclusive("child died before its first input");
-                    return;
+                    return false;
                 }
-                let (class, text) = fuzz_input(batch_seed, idx);
+                let gi = gen_input(gen, batch_seed, idx);
+                let (class, text) = (gi.class, gi.text);
                 let kind = crash_kind(sig, &stderr);
                 let e = ENTRIES[entry.min(5)];
                 if kind == "alloc-failure" {
@@ -1815,38 +2015,42 @@ fn fuzz_batch(dir: &Path, tag: &str, batch_seed: u64, from0: u64, count: u64, on
                 } else if only.map_or(true, |o| o == idx) {
                     let hint = match (e, legacy_keyword(&text)) {
                         ("execute", Some(k)) => format!("execute[{}]", k),
-                        _ => format!("fuzz-{}", class),
+                        _ => gi.hint.clone(),
                     };
                     viol(rep, 
                         format!("{}:{}:{}", kind, component(e), hint),
                         format!("child process killed by signal {} in {} on a {}-byte input of class {}: {:?}; stderr: {}", sig, e, text.len(), class, trunc(&text, 400), trunc(stderr.trim(), 200)),
-                        json!({"part": "fuzz", "batch_seed": batch_seed, "from": from, "index": idx, "class": class, "text": text}),
+                        json!({"part": "fuzz", "gen": gen, "batch_seed": batch_seed, "from": from, "index": idx, "class": class, "text": text}),
                     );
                 }
                 rep.count("child_crashes", 1);
+                if stop_at_crash {
+                    return false;
+                }
                 from = idx + 1;
             }
             Ended::Exit { code, stderr } => {
                 rep.inconclusive(&format!("fuzz child exited with code {} (harness error)", code));
                 rep.sample(json!({"child_exit": code, "stderr": trunc(&stderr, 400)}));
-                return;
+                return false;
             }
             Ended::Timeout { idx, entry } => {
                 restarts += 1;
                 if idx == u64::MAX {
                     rep.inconclusive("fuzz child timed out before its first input");
-                    return;
+                    return false;
                 }
                 // one input alone with a 60 s budget (a <= 4 KiB input normally takes well under 1 ms)
-                let a = vec![("mode", "fuzz".to_string()), ("batch-seed", batch_seed.to_string()), ("from", idx.to_string()), ("count", "1".to_string())];
+                let a = vec![("mode", "fuzz".to_string()), ("gen", gen.to_string()), ("batch-seed", batch_seed.to_string()), ("from", idx.to_string()), ("count", "1".to_string())];
                 let again = run_child(dir, tag, &a, Duration::from_secs(60));
-                let (class, text) = fuzz_input(batch_seed, idx);
+                let gi = gen_input(gen, batch_seed, idx);
+                let (class, text) = (gi.class, gi.text);
                 let e = ENTRIES[entry.min(5)];
                 match again.ended {
                     Ended::Timeout { .. } => viol(rep, 
-                        format!("hang:{}:fuzz-{}", component(e), class),
+                        format!("hang:{}:{}", component(e), gi.hint),
                         format!("{} did not return within 60 s on a {}-byte input: {:?}", e, text.len(), trunc(&text, 400)),
-                        json!({"part": "fuzz", "batch_seed": batch_seed, "from": idx, "index": idx, "class": class, "text": text}),
+                        json!({"part": "fuzz", "gen": gen, "batch_seed": batch_seed, "from": idx, "index": idx, "class": class, "text": text}),
                     ),
                     _ => rep.inconclusive("fuzz batch timed out; the in-flight input alone finished in time"),
                 }
@@ -1854,6 +2058,7 @@ fn fuzz_batch(dir: &Path, tag: &str, batch_seed: u64, from0: u64, count: u64, on
             }
         }
     }
+    from >= end
 }
 
 /// one adversarial nesting case; returns true if the child survived every entry point
@@ -2001,6 +2206,29 @@ fn totality_part(args: &Args, total: &mut Report) {
                 break;
             }
         }
+    });
+    total.merge(rep);
+    // ---- composite nesting: every construct x every cheap filler level, one child per (pair, context)
+    // running its ladder in ascending depth (stops at the first crash)
+    let n_ctx = if args.quick() { 1 } else { NEST_CTXS.len() };
+    let n_jobs = (composite_pairs() * n_ctx) as u64;
+    let d4 = dir.clone();
+    let seed = args.seed;
+    let rep = par_cases(args.threads, args.seed ^ 0xC0B0, n_jobs, args.budget(60, 600), move |i, _s, r| {
+        let pair = i as usize / n_ctx;
+        // quick: one context per pair, rotating with the seed; thorough: all of them
+        let ctx = if n_ctx == 1 { (pair + seed as usize) % NEST_CTXS.len() } else { i as usize % n_ctx };
+        let ladder = composite_ladder(pair, ctx).len() as u64;
+        let done = gen_batch(&d4, &format!("comp-{}", i), "composite", true, (pair * 100 + ctx) as u64, 0, ladder, None, r);
+        r.count(if done { "composite_ladders_completed" } else { "composite_ladders_cut_short" }, 1);
+    });
+    total.merge(rep);
+    // ---- random mixtures of all level kinds
+    let n_mix = args.extra_u64("nestmix-inputs", args.by_tier(16_000, 600_000));
+    let per_mix = 1_000u64;
+    let d5 = dir.clone();
+    let rep = par_cases(args.threads, args.seed ^ 0x4E57, (n_mix + per_mix - 1) / per_mix, args.budget(40, 400), move |b, _s, r| {
+        gen_batch(&d5, &format!("mix-{}", b), "nestmix", false, hash_combine(seed, 0x4E57), b * per_mix, per_mix, None, r);
     });
     total.merge(rep);
     // ---- fuzz batches
@@ -3338,12 +3566,14 @@ struct Model {
     index_built: bool,
 }
 
-const TABLE_NAMES: &[&str] = &["users", "orders", "t1", "items", "log_2"];
+// pools contain names that differ only in letter case (`users`/`Users`, `person`/`Person`, `knows`/`Knows`,
+// 'alice'/'Alice'): the text must address exactly the name it spells
+const TABLE_NAMES: &[&str] = &["users", "orders", "t1", "items", "log_2", "Users"];
 const COL_NAMES: &[&str] = &["name", "age", "score", "flag", "qty", "note", "ratio", "city"];
-const LABELS: &[&str] = &["person", "doc", "team", "Item"];
-const ETYPES: &[&str] = &["knows", "owns", "FOLLOWS", "rel_2"];
+const LABELS: &[&str] = &["person", "doc", "team", "Item", "Person"];
+const ETYPES: &[&str] = &["knows", "owns", "FOLLOWS", "rel_2", "Knows"];
 const PROP_KEYS: &[&str] = &["name", "age", "w", "active", "since", "score"];
-const TEXT_POOL: &[&str] = &["alice", "Bob", "", "it's", "a\"q", "x y", "-5", "ünï", "O'Neil -- x", "back\\slash", "line\nbreak", "NULL", "1e3"];
+const TEXT_POOL: &[&str] = &["alice", "Alice", "Bob", "", "it's", "a\"q", "x y", "-5", "ünï", "O'Neil -- x", "back\\slash", "line\nbreak", "NULL", "1e3"];
 const SQL_TYPES: &[(&str, Ty)] = &[
     ("INT", Ty::Int), ("INTEGER", Ty::Int), ("BIGINT", Ty::Int), ("SMALLINT", Ty::Int), ("FLOAT", Ty::Float), ("DOUBLE", Ty::Float), ("REAL", Ty::Float),
     ("TEXT", Ty::Str), ("VARCHAR(40)", Ty::Str), ("BOOLEAN", Ty::Bool),
@@ -4160,6 +4390,383 @@ fn equiv_case(case_seed: u64, rep: &mut Report) {
 }
 
 // ================================================================================================
+// PART D — a text means the same whatever was lexed / parsed before it (history independence)
+// ================================================================================================
+//
+// One case = one SESSION: 2-5 base texts (statement templates whose names are several spellings of a
+// few words, statements of the parser's own tests, printed expression trees, hostile inputs, nesting
+// around the limit), each with 1-3 re-spelled variants (letter case of words, suffixes, whitespace,
+// literals), every text 2-3 times, shuffled, pushed through tokenize / parse_expr / parse / parse_all
+// on ONE new thread. Reference = the same text alone on a thread that has never run the parser.
+//  * every result in the session must equal the reference of its text (tokens with spans, AST with
+//    spans, error kind and span);
+//  * every identifier token must be spelled exactly as the source text at its span.
+
+type Four = (Result<Vec<np::Token>, Pan>, Result<np::ParseResult<Expr>, Pan>, Result<np::ParseResult<Statement>, Pan>, Result<np::ParseResult<Vec<Statement>>, Pan>);
+
+const HIST_MAX_TEXT: usize = 1024;
+const HIST_ENTRIES: [&str; 4] = ["tokenize", "parse_expr", "parse", "parse_all"];
+
+fn parse_four(s: &str) -> Four {
+    (guard(|| np::tokenize(s)), guard(|| np::parse_expr(s)), guard(|| np::parse(s)), guard(|| np::parse_all(s)))
+}
+
+/// runs `f` on a brand-new thread (virgin thread-local state, 16 MiB stack: texts are <= 1 KiB)
+fn on_new_thread<R: Send + 'static>(f: impl FnOnce() -> R + Send + 'static) -> Option<R> {
+    std::thread::Builder::new().name("c15-hist".into()).stack_size(16 << 20).spawn(f).ok()?.join().ok()
+}
+
+const HIST_WORDS: &[&str] = &["users", "name", "email", "accounts", "id", "zeta_col", "person", "knows", "docs", "v", "x1", "total", "t", "my_fn"];
+/// $0..$3 are names; the same word may stand behind several of them in different spellings
+const HIST_TEMPLATES: &[&str] = &[
+    "SELECT $0, $1 FROM $2 JOIN $3 ON $2.$0 = $3.$1",
+    "SELECT $0 FROM $2 WHERE $1 = 1 AND $0 > $1",
+    "SELECT $0, $1, $0 FROM $2, $3",
+    "SELECT COUNT($0) FROM $2 GROUP BY $1",
+    "SELECT $0 AS $1 FROM $2 ORDER BY $1 DESC LIMIT 3",
+    "SELECT $0 FROM $2 WHERE $1 IN (SELECT $1 FROM $3)",
+    "CREATE TABLE $2 ($0 INT, $1 TEXT)",
+    "CREATE INDEX $3 ON $2 ($0)",
+    "DROP TABLE $2",
+    "INSERT INTO $2 ($0, $1) VALUES (1, '$1')",
+    "UPDATE $2 SET $0 = $1 + 1 WHERE $1 < 3",
+    "DELETE FROM $2 WHERE $0 = '$0'",
+    "NODE CREATE $2 {$0: 1, $1: 'a'}",
+    "EDGE CREATE 1 -> 2 : $3 {$0: 2}",
+    "NODE LIST $2",
+    "FIND NODE $2 WHERE $0 = 1",
+    "NEIGHBORS 1 OUTGOING : $3",
+    "EMBED STORE '$0' [1.0, 2.0]",
+    "SIMILAR '$1' LIMIT 3",
+    "$0 + $1 * $0",
+    "$2.$0 = $3.$1 AND $0 IS NOT NULL",
+    "$3($0, $1) || $2",
+    "CASE $0 WHEN $1 THEN $2 ELSE $3 END",
+];
+
+fn respell_word(r: &mut Rng, w: &str) -> String {
+    match r.below(8) {
+        0 => w.to_ascii_lowercase(),
+        1 | 2 => w.to_ascii_uppercase(),
+        3 => {
+            let mut c = w.chars();
+            match c.next() {
+                Some(f) => f.to_ascii_uppercase().to_string() + c.as_str(),
+                None => String::new(),
+            }
+        }
+        4 | 5 => w.chars().map(|c| if r.bool() { c.to_ascii_uppercase() } else { c.to_ascii_lowercase() }).collect(),
+        6 => format!("{}{}", w, r.below(3)),
+        _ => format!("_{}", w),
+    }
+}
+
+/// a variant of `text`: some ASCII words re-spelled (letter case, suffix, prefix), some blanks widened
+fn respell_text(r: &mut Rng, text: &str) -> String {
+    let mut out = String::with_capacity(text.len() + 16);
+    let p_word = *r.pick(&[2u32, 4, 8]);
+    let widen = r.chance(1, 3);
+    let cs: Vec<char> = text.chars().collect();
+    let mut i = 0;
+    while i < cs.len() {
+        let c = cs[i];
+        if c.is_ascii_alphabetic() || c == '_' {
+            let mut j = i;
+            while j < cs.len() && (cs[j].is_ascii_alphanumeric() || cs[j] == '_') {
+                j += 1;
+            }
+            let w: String = cs[i..j].iter().collect();
+            if r.chance(p_word, 8) {
+                out.push_str(&respell_word(r, &w));
+            } else {
+                out.push_str(&w);
+            }
+            i = j;
+        } else {
+            out.push(c);
+            if c == ' ' && widen && r.chance(1, 4) {
+                out.push_str(*r.pick(&[" ", "\n", "\t ", "/* c */ "]));
+            }
+            i += 1;
+        }
+    }
+    out
+}
+
+/// appends `suffix` to every identifier token (located with the real lexer; only shapes the input)
+fn salt_identifiers(text: &str, suffix: &str) -> String {
+    let toks = match guard(|| np::tokenize(text)) {
+        Ok(t) => t,
+        Err(_) => return text.to_string(),
+    };
+    let mut s = text.to_string();
+    let mut ends: Vec<usize> = toks.iter().filter(|t| matches!(t.kind, np::TokenKind::Ident(_))).map(|t| t.span.end.0 as usize).collect();
+    ends.sort_unstable();
+    for e in ends.into_iter().rev() {
+        if e <= s.len() && s.is_char_boundary(e) {
+            s.insert_str(e, suffix);
+        }
+    }
+    s
+}
+
+fn hist_clip(mut s: String) -> String {
+    if s.len() > HIST_MAX_TEXT {
+        let mut e = HIST_MAX_TEXT;
+        while !s.is_char_boundary(e) {
+            e -= 1;
+        }
+        s.truncate(e);
+    }
+    s
+}
+
+fn hist_base(r: &mut Rng) -> (&'static str, String) {
+    match r.weighted(&[45, 20, 15, 10, 10]) {
+        0 => {
+            // names: 1-3 words, each placeholder gets one of them in its own spelling
+            let nw = 1 + r.below(3);
+            let words: Vec<&str> = (0..nw).map(|_| *r.pick(HIST_WORDS)).collect();
+            let mut t = r.pick(HIST_TEMPLATES).to_string();
+            for k in 0..4 {
+                let w = words[r.below(words.len())];
+                let sp = if r.chance(1, 3) { w.to_string() } else { respell_word(r, w) };
+                t = t.replace(&format!("${}", k), &sp);
+            }
+            ("template", t)
+        }
+        1 => ("corpus", CORPUS[r.below(CORPUS.len())].to_string()),
+        2 => {
+            let d = 2 + r.below(4);
+            let t = gen_tree(r, d, false);
+            let st = Style::random(r);
+            let e = print_tree(&t, if r.bool() { Mode::Min } else { Mode::Full }, &st);
+            ("tree", ALL_PCTX[r.below(ALL_PCTX.len())].wrap(&e, &st))
+        }
+        3 => ("hostile", fuzz_input(r.next_u64(), r.below(1000) as u64).1),
+        _ => {
+            // nesting around the documented limit: an error in between must leave nothing behind
+            let class = *r.pick(&NEST_CLASSES[..14]);
+            let d = 56 + r.below(16);
+            let ctx = r.below(NEST_CTXS.len());
+            let (bare, stmt) = nest_case(class, d, ctx);
+            ("nest-at-limit", if r.bool() { bare.unwrap_or(stmt) } else { stmt })
+        }
+    }
+}
+
+/// (session order as indices into the distinct texts, the distinct texts, their sources)
+fn hist_session(case_seed: u64) -> (Vec<usize>, Vec<String>, Vec<&'static str>) {
+    let mut r = Rng::new(case_seed ^ 0x4157);
+    let mut texts: Vec<String> = Vec::new();
+    let mut src: Vec<&'static str> = Vec::new();
+    // identifiers no earlier session of this process has used (a process-wide table would otherwise
+    // already hold them when the reference is taken)
+    let salt = if r.bool() { Some(format!("_{:x}", case_seed & 0xF_FFFF)) } else { None };
+    let nb = 2 + r.below(4);
+    for _ in 0..nb {
+        let (s, base) = hist_base(&mut r);
+        let base = match &salt {
+            Some(sfx) if s != "hostile" => salt_identifiers(&base, sfx),
+            _ => base,
+        };
+        let nv = 1 + r.below(3);
+        let mut fam = vec![hist_clip(base.clone())];
+        for _ in 0..nv {
+            fam.push(hist_clip(respell_text(&mut r, &base)));
+        }
+        for t in fam {
+            if !texts.contains(&t) {
+                texts.push(t);
+                src.push(s);
+            }
+        }
+    }
+    let mut order: Vec<usize> = Vec::new();
+    for i in 0..texts.len() {
+        for _ in 0..2 + r.below(2) {
+            order.push(i);
+        }
+    }
+    r.shuffle(&mut order);
+    (order, texts, src)
+}
+
+fn four_same(a: &Four, b: &Four) -> [bool; 4] {
+    fn same<X: PartialEq + std::fmt::Debug>(a: &Result<np::ParseResult<X>, Pan>, b: &Result<np::ParseResult<X>, Pan>) -> bool {
+        match (a, b) {
+            (Ok(Ok(x)), Ok(Ok(y))) => x == y || format!("{:?}", x) == format!("{:?}", y),
+            (Ok(Err(x)), Ok(Err(y))) => same_err(x, y),
+            (Err(p), Err(q)) => p.file == q.file && panic_class(&p.msg) == panic_class(&q.msg),
+            _ => false,
+        }
+    }
+    let tok = match (&a.0, &b.0) {
+        (Ok(x), Ok(y)) => x == y || format!("{:?}", x) == format!("{:?}", y),
+        (Err(p), Err(q)) => p.file == q.file && panic_class(&p.msg) == panic_class(&q.msg),
+        _ => false,
+    };
+    [tok, same(&a.1, &b.1), same(&a.2, &b.2), same(&a.3, &b.3)]
+}
+
+fn four_dbg(f: &Four, entry: usize) -> String {
+    fn d<X: std::fmt::Debug>(x: &Result<X, Pan>) -> String {
+        match x {
+            Ok(v) => format!("{:?}", v),
+            Err(p) => format!("panic at {}:{}: {}", p.file, p.line, p.msg),
+        }
+    }
+    match entry {
+        0 => d(&f.0),
+        1 => d(&f.1),
+        2 => d(&f.2),
+        _ => d(&f.3),
+    }
+}
+
+/// where two debug renderings start to differ (a window around the first differing byte)
+fn diff_window(a: &str, b: &str) -> (String, String) {
+    let p = a.bytes().zip(b.bytes()).position(|(x, y)| x != y).unwrap_or(a.len().min(b.len()));
+    let cut = |s: &str| {
+        let mut st = p.saturating_sub(60);
+        while !s.is_char_boundary(st) {
+            st -= 1;
+        }
+        let mut e = (p + 100).min(s.len());
+        while !s.is_char_boundary(e) {
+            e -= 1;
+        }
+        s[st..e].to_string()
+    };
+    (cut(a), cut(b))
+}
+
+fn history_case(case_seed: u64, rep: &mut Report) {
+    let (order, texts, src) = hist_session(case_seed);
+    let replay = json!({"part": "history", "case_seed": case_seed});
+    // ---- references: every text alone on a thread that has never lexed anything
+    let mut refs: Vec<Four> = Vec::with_capacity(texts.len());
+    for t in &texts {
+        let t2 = t.clone();
+        match on_new_thread(move || parse_four(&t2)) {
+            Some(f) => refs.push(f),
+            None => {
+                rep.inconclusive("history: reference thread could not be run");
+                return;
+            }
+        }
+    }
+    // ---- the session: all texts in order on one new thread
+    let sess_texts: Vec<String> = order.iter().map(|&i| texts[i].clone()).collect();
+    let sess: Vec<Four> = match on_new_thread(move || sess_texts.iter().map(|t| parse_four(t)).collect::<Vec<Four>>()) {
+        Some(v) => v,
+        None => {
+            rep.inconclusive("history: session thread could not be run");
+            return;
+        }
+    };
+    let mut ok = true;
+    // ---- oracle 1: identifier tokens are spelled as the text at their span (references and session)
+    let ident_check = |f: &Four, text: &str, when: &str, rep: &mut Report| -> bool {
+        let mut good = true;
+        if let Ok(toks) = &f.0 {
+            for t in toks {
+                if let np::TokenKind::Ident(name) = &t.kind {
+                    rep.count("history_identifier_tokens_checked", 1);
+                    let slice = text.get(t.span.start.0 as usize..t.span.end.0 as usize);
+                    if slice != Some(name.as_str()) && good {
+                        good = false;
+                        viol(
+                            rep,
+                            "tokenize:identifier-token-differs-from-source-text",
+                            format!("{}: the identifier token at bytes {}..{} is Ident({:?}) but the text there reads {:?} (text {:?})", when, t.span.start.0, t.span.end.0, name, slice, trunc(text, 300)),
+                            replay.clone(),
+                        );
+                    }
+                }
+            }
+        }
+        good
+    };
+    for (i, t) in texts.iter().enumerate() {
+        ok &= ident_check(&refs[i], t, "parsed alone on a new thread", rep);
+    }
+    // ---- oracle 2: the session's results equal the references
+    let mut seen: HashMap<String, Vec<String>> = HashMap::new();
+    let mut respelled = 0u64;
+    let mut after_error = 0u64;
+    let mut prev_was_error = false;
+    for (pos, &ti) in order.iter().enumerate() {
+        let text = &texts[ti];
+        let same = four_same(&refs[ti], &sess[pos]);
+        rep.count("history_results_compared", 4);
+        if prev_was_error {
+            after_error += 1;
+        }
+        for e in 0..4 {
+            if same[e] {
+                continue;
+            }
+            ok = false;
+            // a panic that only happens in the session is reported as the panic it is
+            let sess_pan = match (e, &sess[pos]) {
+                (0, (Err(p), ..)) | (1, (_, Err(p), ..)) | (2, (_, _, Err(p), _)) | (3, (.., Err(p))) => Some(p.clone()),
+                _ => None,
+            };
+            if let Some(p) = sess_pan.filter(pan_in_scope) {
+                viol(rep, pan_signature(HIST_ENTRIES[e], &p), format!("{} panicked at {}:{}: {} on {:?} after {} earlier texts on the thread", HIST_ENTRIES[e], p.file, p.line, p.msg, trunc(text, 300), pos), replay.clone());
+                continue;
+            }
+            let (a, b) = (four_dbg(&refs[ti], e), four_dbg(&sess[pos], e));
+            let (wa, wb) = diff_window(&a, &b);
+            let earlier: Vec<String> = order[..pos].iter().rev().take(4).map(|&k| trunc(&texts[k], 120)).collect();
+            viol(
+                rep,
+                format!("determinism:depends-on-earlier-input:{}", HIST_ENTRIES[e]),
+                format!(
+                    "{} of {:?} gives another result as text #{} of a thread's session than alone on a new thread: alone ..{}.. / in session ..{}.. (texts before it, latest first: {:?})",
+                    HIST_ENTRIES[e], trunc(text, 300), pos + 1, wa, wb, earlier
+                ),
+                replay.clone(),
+            );
+        }
+        ok &= ident_check(&sess[pos], text, &format!("text #{} of a session", pos + 1), rep);
+        // what this position exercised: an identifier the thread has seen before in another letter case
+        if let Ok(toks) = &refs[ti].0 {
+            for t in toks {
+                if let np::TokenKind::Ident(name) = &t.kind {
+                    let e = seen.entry(name.to_ascii_lowercase()).or_default();
+                    if !e.is_empty() && !e.contains(name) {
+                        respelled += 1;
+                    }
+                    if !e.contains(name) {
+                        e.push(name.clone());
+                    }
+                }
+            }
+        }
+        prev_was_error = matches!(&refs[ti].2, Ok(Err(_)));
+        if matches!(&refs[ti].2, Ok(Err(e)) if matches!(e.kind, ParseErrorKind::TooDeep)) {
+            rep.count("history_too_deep_answers_in_sessions", 1);
+        }
+    }
+    if !ok {
+        return;
+    }
+    rep.count("history_sessions", 1);
+    rep.count("history_texts", order.len() as u64);
+    rep.count("history_identifiers_met_again_in_another_letter_case", respelled);
+    rep.count("history_texts_parsed_right_after_an_error", after_error);
+    for s in &src {
+        rep.count(&format!("history_texts_by_source[{}]", s), 1);
+    }
+    rep.eval(hash_str(&order.iter().map(|&i| texts[i].as_str()).collect::<Vec<_>>().join("\u{1}")), respelled > 0);
+    if rep.want_sample() && case_seed % 211 == 0 {
+        rep.sample(json!({"part": "history", "session": order.iter().take(6).map(|&i| trunc(&texts[i], 100)).collect::<Vec<_>>(), "identifiers_met_again_in_another_case": respelled}));
+    }
+}
+
+// ================================================================================================
 // main
 // ================================================================================================
 
@@ -4170,13 +4777,15 @@ fn replay_case(args: &Args, rp: &J, total: &mut Report) {
         "tree-wide" => tree_case_wide(rp["case_seed"].as_u64().unwrap_or(0), total),
         "tree-small" => tree_case_small(rp["index"].as_u64().unwrap_or(0), total),
         "equiv" => equiv_case(rp["case_seed"].as_u64().unwrap_or(0), total),
+        "history" => history_case(rp["case_seed"].as_u64().unwrap_or(0), total),
         "nest" => {
             let class = rp["class"].as_str().unwrap_or("paren").to_string();
             nest_run(scratch.path(), "replay", &class, rp["depth"].as_u64().unwrap_or(1) as usize, rp["ctx"].as_u64().unwrap_or(0) as usize, total);
         }
         "fuzz" => {
             let (bs, from, idx) = (rp["batch_seed"].as_u64().unwrap_or(0), rp["from"].as_u64().unwrap_or(0), rp["index"].as_u64().unwrap_or(0));
-            fuzz_batch(scratch.path(), "replay", bs, from, idx - from + 1, Some(idx), total);
+            let gen = rp["gen"].as_str().unwrap_or("fuzz").to_string();
+            gen_batch(scratch.path(), "replay", &gen, false, bs, from, (idx + 1).saturating_sub(from), Some(idx), total);
         }
         "text" => text_run(scratch.path(), rp["text"].as_str().unwrap_or(""), total),
         other => total.inconclusive(&format!("unknown replay part {:?}", other)),
@@ -4224,6 +4833,12 @@ fn main() {
             let rep = par_cases(args.threads, args.seed ^ 0xE9, n, args.budget(60, 420), |_i, s, r| equiv_case(s, r));
             total.merge(rep);
         }
+        // ---- history independence (in process, every session on threads of its own)
+        if want("history") {
+            let n = args.extra_u64("sessions", args.by_tier(3_000, 300_000));
+            let rep = par_cases(args.threads, args.seed ^ 0x4157, n, args.budget(25, 300), |_i, s, r| history_case(s, r));
+            total.merge(rep);
+        }
         // ---- totality (child processes)
         if want("totality") {
             totality_part(&args, &mut total);
@@ -4251,6 +4866,13 @@ fn main() {
             ("calls[execute]", 5_000),
             ("calls[execute_parsed]", 5_000),
             ("nest_cases", 60),
+            ("inputs[nest-composite]", 2_000),
+            ("composite_ladders_completed", 150),
+            ("inputs[nest-mix]", args.by_tier(4_000, 60_000)),
+            ("history_sessions", args.by_tier(600, 30_000)),
+            ("history_results_compared", args.by_tier(40_000, 1_000_000)),
+            ("history_identifiers_met_again_in_another_letter_case", args.by_tier(2_000, 60_000)),
+            ("history_texts_parsed_right_after_an_error", args.by_tier(1_000, 20_000)),
             ("trees_small", 900),
             ("trees_random", args.by_tier(5_000, 50_000)),
             ("trees_wide", args.by_tier(1_000, 20_000)),
@@ -4267,7 +4889,7 @@ fn main() {
     };
     let meta = Meta {
         property: "C15",
-        rule: "totality: one evaluation = one input string (<= 4096 bytes: random bytes, printable ASCII, unicode incl. characters whose uppercase has another length, keyword/operator soup, 1-4 token-level mutations of ~870 statements taken from the parser's and the router's own tests, nesting of 19 kinds up to the depth that fits in 4 KiB) pushed through tokenize, parse_expr, parse, parse_all (each twice) and, when execution stays inside the engines, QueryRouter::execute_parsed and ::execute, on a 2 MiB-stack thread of a child process; distinct by hash of the text, non-trivial if it lexes to >= 2 tokens. precedence: one evaluation = one expression tree (all 722 two-operator, 180 unary/binary and 34 295 three-operator trees; random trees of height 2-8 over all 19 binary and 3 unary operators plus IS NULL/IN/BETWEEN/LIKE/calls/CASE/arrays/tuples; wide flat expressions of 20-450 operands - one-level chains, sums of products, AND-ed comparisons, all operators mixed - whose expected tree is the documented table's grouping and for which `nesting too deep` counts as a wrong parse) whose minimal-parentheses and fully-parenthesised prints both parse back to it through parse_expr and through the statement parser in SELECT-item, WHERE and UPDATE-SET position; distinct by hash of the minimal print, non-trivial with >= 2 operators. equivalence: one evaluation = one completed program of 20-49 generated statements (CREATE/DROP TABLE, CREATE INDEX, SHOW TABLES, INSERT, SELECT with projection/ORDER BY/LIMIT/OFFSET, SELECT COUNT(*)/COUNT/SUM/AVG/MIN/MAX [GROUP BY 1-2 columns] [HAVING COUNT..], GRAPH PAGERANK / BETWEENNESS|CLOSENESS|EIGENVECTOR CENTRALITY / LOUVAIN COMMUNITIES / LABEL PROPAGATION with each optional clause present or omitted against the engine call with its default configuration, UPDATE, DELETE, NODE/EDGE CREATE/GET/DELETE/LIST, NEIGHBORS [BY SIMILAR], PATH, FIND NODE/EDGE, EMBED STORE/GET/DELETE/BATCH [INTO collection], SHOW/COUNT EMBEDDINGS, SIMILAR key|vector [COSINE] [INTO collection] [WHERE metadata filter] [CONNECTED TO], ENTITY CREATE/CONNECT; every LIMIT/OFFSET is drawn from {absent, 0, 1-4, 10, larger than any result}) run as text on one router and as direct calls on a twin, compared after every statement and on the final engine states; distinct by hash of the statement texts.",
+        rule: "totality: one evaluation = one input string (<= 4096 bytes: random bytes, printable ASCII, unicode incl. characters whose uppercase has another length, keyword/operator soup, 1-4 token-level mutations of ~870 statements taken from the parser's and the router's own tests, nesting of 19 kinds up to the depth that fits in 4 KiB; composite nesting - each of 31 constructs (subqueries behind EXISTS / IN / NOT IN / FROM / HAVING / ORDER BY and as scalar, CASE operand/WHEN/THEN/ELSE, CAST, calls, aggregates, IN lists and their left side, BETWEEN bounds, LIKE, tuples, arrays) holding runs of 1, 3, 15, 31, 62, 63, 64 levels of each of 9 cheap fillers, 2, 4, 16, 64 ... as many repetitions as fit in 4 KiB, in ascending ladders; random periodic and aperiodic mixtures of all 31 level kinds) pushed through tokenize, parse_expr, parse, parse_all (each twice) and, when execution stays inside the engines, QueryRouter::execute_parsed and ::execute, on a 2 MiB-stack thread of a child process; distinct by hash of the text, non-trivial if it lexes to >= 2 tokens. history: one evaluation = one session of 2-5 base texts (templates of SELECT/JOIN/CREATE/INSERT/UPDATE/DELETE/NODE/EDGE/FIND/EMBED/SIMILAR statements and bare expressions whose names are several spellings of 1-3 words, statements of the parser's own tests, printed expression trees, hostile inputs, nesting of 56-71 levels around the limit; <= 1 KiB each) with 1-3 re-spelled variants each (ASCII letter case of words, digit suffix, underscore prefix, widened blanks; in half of the sessions all identifiers carry a suffix unique to the session), every text 2-3 times, shuffled, run through tokenize, parse_expr, parse, parse_all on one new thread; every result (tokens with spans, AST with spans, error kind and span) must equal that of the same text alone on a new thread, and every identifier token must equal the source text at its span; distinct by hash of the session, non-trivial if some identifier is met again in another letter case. precedence: one evaluation = one expression tree (all 722 two-operator, 180 unary/binary and 34 295 three-operator trees; random trees of height 2-8 over all 19 binary and 3 unary operators plus IS NULL/IN/BETWEEN/LIKE/calls/CASE/arrays/tuples; wide flat expressions of 20-450 operands - one-level chains, sums of products, AND-ed comparisons, all operators mixed - whose expected tree is the documented table's grouping and for which `nesting too deep` counts as a wrong parse) whose minimal-parentheses and fully-parenthesised prints both parse back to it through parse_expr and through the statement parser in SELECT-item, WHERE and UPDATE-SET position; distinct by hash of the minimal print, non-trivial with >= 2 operators. equivalence: one evaluation = one completed program of 20-49 generated statements (CREATE/DROP TABLE, CREATE INDEX, SHOW TABLES, INSERT, SELECT with projection/ORDER BY/LIMIT/OFFSET, SELECT COUNT(*)/COUNT/SUM/AVG/MIN/MAX [GROUP BY 1-2 columns] [HAVING COUNT..], GRAPH PAGERANK / BETWEENNESS|CLOSENESS|EIGENVECTOR CENTRALITY / LOUVAIN COMMUNITIES / LABEL PROPAGATION with each optional clause present or omitted against the engine call with its default configuration, UPDATE, DELETE, NODE/EDGE CREATE/GET/DELETE/LIST, NEIGHBORS [BY SIMILAR], PATH, FIND NODE/EDGE, EMBED STORE/GET/DELETE/BATCH [INTO collection], SHOW/COUNT EMBEDDINGS, SIMILAR key|vector [COSINE] [INTO collection] [WHERE metadata filter] [CONNECTED TO], ENTITY CREATE/CONNECT; every LIMIT/OFFSET is drawn from {absent, 0, 1-4, 10, larger than any result}) run as text on one router and as direct calls on a twin, compared after every statement and on the final engine states; distinct by hash of the statement texts.",
         assumptions: vec![
             "the documented table is expr.rs:7-18 / the book's Binding Power Table: OR < AND < comparison < | < ^ < & < shifts < + - || < * / % < unary NOT - ~ < postfix, binary operators left-associative; where it is silent (a compound operand of IS NULL / IN / BETWEEN / LIKE, bounds of BETWEEN, LIKE pattern) the printer always writes parentheses".into(),
             "expr.rs answering TooDeep (its documented nesting limit of 64) is an error, not a regrouping; such prints are skipped and counted".into(),
@@ -4275,6 +4897,8 @@ fn main() {
             "router execution in the totality part is limited to statement kinds that stay inside the relational/graph/vector engines; panics whose location is outside neumann_parser/query_router are counted, not judged".into(),
             "results are compared up to representation: NULL vs absent column, row order without ORDER BY, neighbour order, equal-length shortest paths, equal-score similarity ties, property values by typed value; a LIMIT/OFFSET window over a listing whose order is unspecified (NODE LIST, EDGE LIST, FIND) is judged by its size, by membership in the direct listing and by absence of duplicates; FIND .. WHERE is only judged on elements whose property is an integer".into(),
             "an error is required to be an error on both sides; error texts are not compared".into(),
+            "history: the lexer produces identifier tokens only for unquoted words (lexer.rs scan_ident), so an identifier token denotes exactly the characters at its span; identifiers are case-sensitive (the engines keep `T` and `t` apart). The reference of a text is taken on a thread that has never called the parser; state shared by all threads of the process is defeated only by the per-session identifier suffix and the spelling clause".into(),
+            "composite nesting judges what the homogeneous ladders judge (no signal, no panic, error spans inside the input, equal repeated parses); whether a deep text is refused or accepted is not judged".into(),
             "a COSINE SIMILAR answered from the router's HNSW index is judged on the scores of the returned keys (fresh index only); a zero query vector has no defined cosine score and is not judged".into(),
         ],
         floors,
